@@ -21,7 +21,9 @@ ASSUMPTIONS = [
     "(<= 2 polls, the wheel firing the timer in between or not); Pin/Rc/RefCell/with_current/Try plumbing summarised "
     "(coverage.summaries); Interval: instants and periods below 2^62 ns, period > 0, u128 `%` abstracted to a fresh "
     "remainder r < period with dividend = multiple + r (the exact 128-bit remainder makes alignment nonlinear: z3 unknown)",
-    "outside: the driver's timeout precision, Runtime::poll_with's I/O side, timeout()/sleep() argument overflow "
+    "runtime glue: Runtime::poll / current_timeout / poll_with with Proactor::poll summarised (records the timeout it is given, "
+    "returns Ok / TimedOut / Interrupted after an arbitrary while; other driver errors panic by design and are not offered)",
+    "outside: the driver's timeout precision, block_on's loop, timeout()/sleep() argument overflow "
     "(Instant + Duration panics in std), interval_at's period assertion",
 ]
 
@@ -52,7 +54,7 @@ class Plan:
     def checks(self, tier):
         cs = [("timers." + n, getattr(self.T, "check_" + n)) for n in self.T.CHECKS]
         for n in self.Fu.FCHECKS:
-            obj = self.Fi if n == "interval_tick" else self.Fu
+            obj = self.Fi if n in ("interval_tick", "runtime_poll") else self.Fu
             cs.append(("futures." + n, getattr(obj, "check_" + n)))
         return cs
 
